@@ -425,6 +425,37 @@ func (g *G) cdxTreeDoc(v int, inClass bool) M {
 			edges = append(edges, M{"ty": float64(ty), "src": g.Pick(ids), "tos": tos})
 		}
 	}
+	if !inClass && n >= 3 && g.Chance(0.15) {
+		// a containment cycle that nothing outside it contains (detached from the root), or hanging off it
+		k := 2
+		if n >= 4 && g.Chance(0.5) {
+			k = 3
+		}
+		cyc := ids[n-k:]
+		inCyc := map[string]bool{}
+		for _, c := range cyc {
+			inCyc[c] = true
+		}
+		detached := g.Chance(0.6)
+		kept := []any{}
+		for _, e := range edges {
+			em := e.(M)
+			tos := []any{}
+			for _, t := range asList(em["tos"]) {
+				if !(detached && inCyc[asStr(t)] && asInt(em["ty"]) == 5) {
+					tos = append(tos, t)
+				}
+			}
+			if len(tos) > 0 {
+				em["tos"] = tos
+				kept = append(kept, em)
+			}
+		}
+		edges = kept
+		for i := range cyc {
+			edges = append(edges, M{"ty": 5.0, "src": cyc[i], "tos": []any{cyc[(i+1)%k]}})
+		}
+	}
 	g.R.Shuffle(len(edges), func(i, j int) { edges[i], edges[j] = edges[j], edges[i] })
 	roots := []any{ids[0]}
 	if !inClass && g.Chance(0.1) {
